@@ -50,7 +50,7 @@ def catalogue(s):
     for n in s["nodes"]:
         nn = n["n"]
         if n["t"] == "junc":
-            for k in ("elev_high", "dem2", "dem0", "pat1", "pat5", "leak", "leak_window", "nodemand_list"):
+            for k in ("elev_high", "dem2", "dem0", "demneg", "pat1", "pat5", "leak", "leak_window", "nodemand_list"):
                 D.append({"k": k, "n": nn})
         elif n["t"] == "tank":
             for k in ("near_min", "near_max", "small", "vcurve", "tleak"):
@@ -119,6 +119,14 @@ def apply(s, d):
             n["demands"] = [[0.0, None, None]]
         elif k == "nodemand_list":
             n["demands"] = []
+        elif k == "demneg":
+            # an inflow point (negative demand following a pattern); smaller than any neighbour's demand, and not at a
+            # junction whose only neighbours are tanks (ill-posed once the tank is full: the inflow has nowhere to go)
+            typ = {m["n"]: m["t"] for m in s["nodes"]}
+            nb = [l["b"] if l["a"] == n["n"] else l["a"] for l in s["links"] if n["n"] in (l["a"], l["b"])]
+            if all(typ[m] == "tank" for m in nb):
+                return None
+            n["demands"] = [[-0.004, "P1", None]]
         elif k == "pat1":
             n["demands"] = [[n["demands"][0][0], "P1", n["demands"][0][2]]] + n["demands"][1:] if n["demands"] else None
             if n["demands"] is None:
@@ -190,11 +198,11 @@ def compatible(d1, d2):
         ok = {"reverse", "closed"}
         return (d1["k"] in ok or d2["k"] in ok) and d1["k"] != d2["k"]
     if "n" in d1 and "n" in d2 and d1["n"] == d2["n"]:
-        grp = lambda d: {"dem2": "dA", "dem0": "d", "nodemand_list": "d", "pat1": "d", "pat5": "d", "leak": "lk",
+        grp = lambda d: {"dem2": "dA", "dem0": "d", "demneg": "d", "nodemand_list": "d", "pat1": "d", "pat5": "d", "leak": "lk",
                          "leak_window": "lk", "tleak": "lk", "near_min": "lv", "near_max": "lv"}.get(d["k"], d["k"])
         if grp(d1) == grp(d2):
             return False
-        if {d1["k"], d2["k"]} & {"dem0", "nodemand_list"} and {d1["k"], d2["k"]} & {"dem2", "pat1", "pat5"}:
+        if {d1["k"], d2["k"]} & {"dem0", "nodemand_list", "demneg"} and {d1["k"], d2["k"]} & {"dem2", "pat1", "pat5"}:
             return False
         if "as_tank" in (d1["k"], d2["k"]):
             return False
